@@ -17,7 +17,7 @@ The places where the close path can raise are explicit outcomes (`Out.raised`):
 while another close finished); `CancelledError` (the task awaiting `async_close` is cancelled at one of its
 suspension points); `RuntimeError` out of `Thread.join()` when sync `close()` runs on the callback thread of a
 browser it has to join (finding D30); `concurrent.futures.TimeoutError` out of `shutdown_loop` on a loop that
-another sync `close()` has just stopped (finding D32).
+another sync `close()` has just stopped (finding D34).
 No Mathlib (compiled into `zcdriver`). -/
 namespace Zc.Shutdown
 open Zc
@@ -27,7 +27,7 @@ inductive Exc where
   | notRunning | cancelled
   /-- `RuntimeError("cannot join current thread")` out of `ServiceBrowser.cancel()` (D30) -/
   | runtimeError
-  /-- `concurrent.futures.TimeoutError` out of `shutdown_loop()` (`_utils/asyncio.py:121-131`) on a stopped loop (D32) -/
+  /-- `concurrent.futures.TimeoutError` out of `shutdown_loop()` (`_utils/asyncio.py:121-131`) on a stopped loop (D34) -/
   | timeout
   deriving DecidableEq, Repr
 
@@ -245,8 +245,9 @@ def cancelJoins : Bool := Gen.Shutdown.thread_cancel_signals && Gen.Shutdown.thr
 browser's own: `cancel()` = sentinel + `_async_cancel` on the loop + `join()` — the thread delivers what was queued
 before the sentinel and ends — then `del self.browsers[listener]` -/
 def syncCancel (b : Browser) : Browser :=
-  { asyncCancel b with queued := if cancelJoins then 0 else b.queued,
-                       zcTracked := if Gen.Shutdown.remove_listener_forgets then false else b.zcTracked }
+  { (if Gen.Shutdown.thread_cancel_schedules_async_cancel then asyncCancel b else b) with
+      queued := if cancelJoins then 0 else b.queued,
+      zcTracked := if Gen.Shutdown.remove_listener_forgets then false else b.zcTracked }
 
 /-- what cancelling the browsers of `Zeroconf.browsers` lets out: the joined thread's remaining callbacks; and, for a
 browser whose `_async_cancel` already ran (only possible after D30 left it in `Zeroconf.browsers`), the failing
@@ -537,7 +538,7 @@ def ZcInv (h : Host) : Prop := ∀ b ∈ h.browsers, b.zcTracked = true → b.ca
 instance (h : Host) : Decidable (ZcInv h) := by unfold ZcInv; infer_instance
 
 /-- a loop thread that has not been forgotten is still running its loop, and at most one sync close is about to stop it —
-what keeps `shutdown_loop` from timing out.  Broken only by overlapping sync closes (finding D32). -/
+what keeps `shutdown_loop` from timing out.  Broken only by overlapping sync closes (finding D34). -/
 def LoopInv' (loopThread loopRunning : Bool) (closes : List Close) : Prop :=
   (loopThread = true → loopRunning = true) ∧
   (∀ (i : Nat) (c : Close), closes[i]? = some c → c.stage = .stopping → loopRunning = true) ∧
@@ -545,7 +546,7 @@ def LoopInv' (loopThread loopRunning : Bool) (closes : List Close) : Prop :=
 
 def LoopInv (h : Host) : Prop := LoopInv' h.loopThread h.loopRunning h.closes
 
-/-- the D32 class: a sync close enters `_shutdown_threads()` while another one is between its `if not self._loop_thread`
+/-- the D34 class: a sync close enters `_shutdown_threads()` while another one is between its `if not self._loop_thread`
 test and `shutdown_loop()` -/
 def Block.overlapsStop (h : Host) : Block → Bool
   | .closeThreadsCheck _ => h.closes.any Close.isStopping
